@@ -788,7 +788,7 @@ coap_free_context_lkd(coap_context_t *context) {
   coap_cache_entry_t *cp, *ctmp;
 
   HASH_ITER(hh, context->cache, cp, ctmp) {
-    coap_delete_cache_entry(context, cp);
+    coap_delete_cache_entry_lkd(context, cp);
   }
   if (context->cache_ignore_count) {
     coap_free_type(COAP_STRING, context->cache_ignore_options);
